@@ -147,6 +147,8 @@ pub struct SessionCfg {
     /// Nodes (indexes) the session's host filter rejects (AllowListHostFilter over the
     /// addresses of all the others).
     pub filtered_out: Vec<usize>,
+    /// A client-side (monotonic) timestamp generator is configured.
+    pub timestamp_generator: bool,
 }
 
 impl Default for SessionCfg {
@@ -168,6 +170,7 @@ impl Default for SessionCfg {
             prefer: None,
             initial_keyspace: None,
             filtered_out: Vec::new(),
+            timestamp_generator: false,
         }
     }
 }
@@ -227,6 +230,9 @@ pub async fn build_session(cfg: &SessionCfg) -> Result<Session, NewSessionError>
         Some((dc, None)) => b.prefer_datacenter(dc.clone()),
         None => b,
     };
+    if cfg.timestamp_generator {
+        b = b.timestamp_generator(Arc::new(scylla::policies::timestamp_generator::MonotonicTimestampGenerator::new()));
+    }
     if !cfg.filtered_out.is_empty() {
         let allowed: Vec<SocketAddr> = (0..16).filter(|n| !cfg.filtered_out.contains(n)).map(contact_point).collect();
         b = b.host_filter(Arc::new(scylla::policies::host_filter::AllowListHostFilter::new(allowed).expect("addresses")));
